@@ -29,3 +29,6 @@ def run(ctx):
     S.r03_2_registered_only(ctx)
     S.r04_5_strip_tags(ctx)
     S.r04_7_strip_before_construct(ctx)
+    S.r03_3_order_independence(ctx)
+    S.r02_3_admission(ctx, 'R13.4')
+    S.r03_8_whole_node(ctx, 'R13.5')
